@@ -64,7 +64,8 @@ def build_harness(tags="verif", race=False, name="vh"):
         cmd.insert(2, "-race")
     if os.environ.get("VERIF_COVER"):
         # maintenance only (bin/coverage): which go-car functions do the checks execute at all?
-        cmd[2:2] = ["-cover", "-coverpkg=github.com/ipld/go-car/...,github.com/ipld/go-car/v2/...,github.com/ipld/go-car/cmd/..."]
+        # the main package must be instrumented too, or the exit hook that writes the counters is not linked
+        cmd[2:2] = ["-cover", "-coverpkg=verifharness,github.com/ipld/go-car/...,github.com/ipld/go-car/v2/...,github.com/ipld/go-car/cmd/..."]
     cmd.append(".")
     p = run(cmd, cwd=hdir, timeout=900)
     if p.returncode != 0:
